@@ -185,6 +185,9 @@ func TestProp_Lifecycle(t *testing.T) {
 			c.Mode = "constant" // users-mode triggers wait for a blocked iteration for ever (open finding)
 			stats.AddNote("excluded_known_F11", 1)
 		}
+		if c.Mode == "file" && rapid.Bool().Draw(rt, "slowBodies") {
+			c.BodyUs = 50000 // iterations of the first (150 ms) stage are still running when the second stage starts
+		}
 		c.Setup = genProgram(rt, "setup", 4)
 		if rapid.IntRange(0, 2).Draw(rt, "cleanSetup") != 0 {
 			c.Setup.End = bOK // most runs get past setup
@@ -297,6 +300,9 @@ func TestProp_Lifecycle(t *testing.T) {
 			nontrivial = true
 		}
 		cls := []string{"mode-" + c.Mode, "ending-" + c.Ending}
+		if c.Mode == "file" && c.BodyUs >= 50000 {
+			cls = append(cls, "iterations-outlive-their-stage")
+		}
 		if setupFails {
 			cls = append(cls, "setup-fails")
 		}
